@@ -77,6 +77,7 @@ def run(F, R, ctx):
     c06.rollback_rule(F, R, "C14.c")
     pruning_rule(F, R)
     identity_rule(F, R)
+    exported_macros_rule(F, R)
     R.note("C14: decided are the cache-consultation, registration and rollback clauses only; which names a module graph "
            "exposes (provide / only-in / prefix-in / mangling) is not decided.")
 
@@ -157,3 +158,150 @@ def identity_rule(F, R):
     R.inst("C14.e", "try_canonicalize canonicalises on every path", ok,
            "compiler::modules::try_canonicalize can return without calling std::fs::canonicalize: paths taken on that route "
            "(e.g. absolute ones that still contain `..`) are used as module identities unnormalised", tc.loc(), sample=True)
+
+
+def _raw_sources(fn):
+    raw = {}
+    for b in fn.blocks:
+        for e in b["e"]:
+            if e[0] == "mv":
+                raw.setdefault(e[1].split(".")[0], []).append(e[2])
+    return raw
+
+
+def _field_provenance(fn, tok, maps, raw, depth=60):
+    """field names mentioned by the places a value is computed from"""
+    out = set()
+    for o in c07._origins(fn, tok, maps, depth=depth):
+        for s_ in raw.get(o.split(".")[0], ()):
+            out |= set(re.findall(r"\.([a-z_][a-z_0-9]*)", s_))
+    return out
+
+
+PURE_ACCESSOR = r"::(atom_identifier|list|is_empty|len|second_ident|first_ident)$"
+
+
+def _repeated_accessor_infeasible(fn):
+    """targets that cannot be taken because the same pure accessor was already asked about the same value on the only way
+    in: `if let Some(x) = e.atom_identifier() { … if let Some(y) = e.atom_identifier() { A } else { B } }` — B is dead"""
+    dom = fn.dominators()
+    keyed = {}
+    for sb, blk in enumerate(fn.blocks):
+        if blk["k"] != "switch" or blk["c"] or not blk["on"].startswith(("enum:Option", "bool")):
+            continue
+        loc = re.match(r"_\d+", blk.get("place", "").strip("()*"))
+        if not loc:
+            continue
+        src = lib.alias_sources(fn, loc.group(0), 3)
+        for ci, cb in fn.calls():
+            if (cb.get("dest") or "").split(".")[0] in src and re.search(PURE_ACCESSOR, cb["callee"]) and cb["args"]:
+                roots = frozenset(x for x in lib.alias_sources(fn, re.match(r"_\d+", cb["args"][0]).group(0), 6)
+                                  if not re.match(r"^_\d+$", x)) or frozenset([cb["args"][0]])
+                keyed[sb] = (cb["callee"], roots)
+    dead = set()
+    for s2, k2 in keyed.items():
+        for s1, k1 in keyed.items():
+            if s1 == s2 or k1 != k2 or s1 not in dom[s2]:
+                continue
+            b1, b2 = fn.blocks[s1], fn.blocks[s2]
+            via = [(v, t) for v, t in b1["targets"] if t == s2 or s2 in fn.reachable_from([t], avoid={s1})]
+            other = b1["otherwise"]
+            via_other = other is not None and (other == s2 or s2 in fn.reachable_from([other], avoid={s1}))
+            if len(via) == 1 and not via_other:
+                v = via[0][0]
+                for v2, t2 in b2["targets"]:
+                    if v2 != v:
+                        dead.add(t2)
+                if v in [x for x, _ in b2["targets"]] and b2["otherwise"] is not None and fn.blocks[b2["otherwise"]]["k"] != "unreachable":
+                    if len(b2["targets"]) == 1:
+                        dead.add(b2["otherwise"])
+    return dead
+
+
+def exported_macros_rule(F, R):
+    R.rule("C14.f", "only provided macros leave a module: in ModuleManager::find_in_scope_macros (the one place that computes "
+                    "which macros of a required module the requirer may use — main program, module-to-module and REPL alike) "
+                    "(1) the returned map starts from the module's provide forms (its initialiser is computed from "
+                    "CompiledModule.provides / provides_for_syntax); (2) every later insertion of a macro looked up in the "
+                    "module's macro table either uses a name that is computed from the provide forms, or — when the name "
+                    "comes from the requirer's only-in / rename list (RequireObject.idents_to_import) — is control-dependent "
+                    "on a successful membership test (contains_key / remove / get) against the map of provided macros. nc: "
+                    "without the test a requirer that names a private macro receives it")
+    fn = F.one(r"\{impl ModuleManager\}::find_in_scope_macros$")
+    maps = c07._backward(fn)
+    raw = _raw_sources(fn)
+    dom = fn.dominators()
+    ret = lib.alias_sources(fn, "_0", 8)
+    ins = [(i, b) for i, b in fn.calls() if re.search(r"HashMap<K,V,S,A>\}::insert$", b["callee"]) and len(b["args"]) >= 3]
+    exported = None
+    for i, b in ins:
+        al = lib.alias_sources(fn, re.match(r"_\d+", b["args"][0]).group(0))
+        hit = [x for x in al if re.match(r"^_\d+$", x) and x in ret]
+        if hit:
+            exported = hit[0]
+            break
+    if exported is None:
+        raise CheckError("anchor lost: find_in_scope_macros no longer inserts into the map it returns")
+    # (1) the initialiser
+    init = [b for i, b in fn.calls() if (b.get("dest") or "").split(".")[0] == exported]
+    prov = set()
+    for b in init:
+        for a in b["args"]:
+            for t in lib.TOK.findall(a):
+                prov |= _field_provenance(fn, t, maps, raw)
+    R.inst("C14.f", "the map of importable macros starts from the module's provide forms", bool(init) and bool(prov & {"provides", "provides_for_syntax"}),
+           "find_in_scope_macros initialises the map it returns from {%s}, not from the module's provide forms: macros the "
+           "module does not provide are handed to every requirer" % ", ".join(sorted(prov)) , fn.loc(init[0]["line"] if init else None),
+           sample={"initialiser_fields": sorted(prov)})
+    # (2) insertions
+    member = {}
+    for i, b in fn.calls():
+        if re.search(r"HashMap<K,V,S,A>\}::(contains_key|remove|get)$", b["callee"]):
+            al = lib.alias_sources(fn, re.match(r"_\d+", b["args"][0]).group(0))
+            if exported in al and b.get("dest"):
+                member[i] = b["dest"].split(".")[0]
+    infeasible = _repeated_accessor_infeasible(fn)
+    n = 0
+    for i, b in ins:
+        al = lib.alias_sources(fn, re.match(r"_\d+", b["args"][0]).group(0))
+        if exported not in al:
+            continue
+        vorg = c07._origins(fn, re.match(r"_\d+", b["args"][2]).group(0), maps, depth=30)
+        from_table = [g for g, bb in fn.calls() if re.search(r"::get$", bb["callee"]) and g not in member
+                      and (bb.get("dest") or "").split(".")[0] in vorg]
+        if not from_table:
+            continue
+        n += 1
+        kprov = set()
+        for g in from_table:
+            kprov |= _field_provenance(fn, re.match(r"_\d+", fn.blocks[g]["args"][1]).group(0), maps, raw)
+        requested = "idents_to_import" in kprov
+        provided = bool(kprov & {"provides", "provides_for_syntax"})
+        guarded = False
+        for g, d in member.items():
+            for sb, blk in enumerate(fn.blocks):
+                if blk["k"] != "switch" or blk["c"]:
+                    continue
+                loc = re.match(r"_\d+", blk.get("place", "").strip("()*"))
+                if not loc or d not in {o.split(".")[0] for o in c07._origins(fn, loc.group(0), maps, depth=8)} | {loc.group(0)}:
+                    continue
+                good = [t for t in set(blk["s"]) if t == i or i in fn.reachable_from([t], avoid={sb, g} | infeasible)]
+                if len(good) != 1 or len(set(blk["s"])) < 2:
+                    continue
+                # every feasible path from the table lookup to the insertion goes through the successful side of the test
+                if all(i not in fn.reachable_from([ft], avoid={good[0]} | infeasible) for ft in from_table):
+                    guarded = True
+                # or the test comes first: test and branch both dominate the insertion
+                if g in dom[i] and sb in dom[i]:
+                    guarded = True
+        ok = guarded or (provided and not requested)
+        R.inst("C14.f", "find_in_scope_macros / insertion at the %s of a %s name" % (
+            "guarded request" if guarded else "loop over the provide forms" if provided else "unguarded use",
+            "requested" if requested else "provided" if provided else "computed"), ok,
+               "find_in_scope_macros (line %s) puts a macro taken from the module's macro table into the map of importable "
+               "macros under a name that %s, and no membership test against the provided macros decides whether it gets "
+               "there: a requirer naming a private macro of the module receives it (and its expansion then reaches the "
+               "module's private definitions)" % (b["line"], "comes from the requirer's only-in / rename list" if requested else
+                                                    "is not computed from the module's provide forms"),
+               fn.loc(b["line"]), sample=True)
+    R.floor("C14.f", "insertions of module macros into the importable map", n, 2)
